@@ -176,6 +176,21 @@ def step (st : State) (w : List String) : State × String :=
     match (listOf answers ";").mapM parseAns with
     | some as => (st, "keep=" ++ dash (keptIdx (fun r => nameInZone (lower r.owner) (lower (str zone))) as))
     | none => (st, "bad-op")
+  | ["nslookup", "run", v6, level, qname, hosts, extras, host, v6lookup, sub] =>
+    let subP : Option (Option (List AddrRR)) :=
+      if sub == "F" then some none
+      else match (sub.drop 1).toString.splitOn ":" with
+        | [_rc, rrs] => ((listOf rrs "+").mapM parseExtra).map fun es =>
+            some (es.map fun e => ({ owner := e.owner, rtype := e.rtype, addr := e.addr } : AddrRR))
+        | _ => none
+    match parseBool v6, level.toNat?, (listOf extras ";").mapM parseExtra, parseBool v6lookup, subP with
+    | some v6, some level, some es, some v6l, some subR =>
+      let g := checkGlue st.locals v6 level (str qname) ((listOf hosts ",").map str) es
+      let cached := glueCached (if v6l then g.v6 else g.v4) (str host)
+      match lookupNSAddr st.locals cached subR with
+      | some l => (st, "addrs=" ++ dash (l.map bytesHex))
+      | none => (st, "err")
+    | _, _, _, _, _ => (st, "bad-op")
   | ["nsaddr", "run", rrs] =>
     match (listOf rrs ";").mapM parseExtra with
     | some es =>
